@@ -85,8 +85,13 @@ VALUE_TABLE = {
 }
 
 
+ALIASES = {"vz.harness.dt.strict_int": "integer"}       # harness datatypes with a stock meaning
+SECT_REJECTING = (M.SECT_DT_REJECT, "vz.harness.dt.reject_section")
+
+
 def convert(datatype, text):
     """('ok', value) | BAD.  Raises OutsideDomain for tokens the table does not fix."""
+    datatype = ALIASES.get(datatype, datatype)
     if datatype == "string" or datatype == "null":
         return ("ok", text)
     if datatype == "integer":
@@ -372,7 +377,7 @@ class Matcher:
             return tree
         if dt == M.SECT_DT_WRAP:
             return ("W", tree)
-        if dt == M.SECT_DT_REJECT:
+        if dt in SECT_REJECTING:
             for an, val in attrs:
                 if an == "lk" and val == ("str", "x"):
                     raise _Reject("section-datatype-rejects")
